@@ -1,2 +1,105 @@
-/-! line-protocol driver for property C07 (stub) -/
-def main (_args : List String) : IO Unit := pure ()
+import MirVerif.Model.CArithExpr
+/-! line-protocol driver for property C07 (`mirdrv_c07`).
+
+    cexpr <prefix expression>     -> `<type> <value>` | `UB` | `ERR`
+         L <type> <int>  |  C <type> e  |  N e (-)  |  T e (~)  |  P e (+)  |  X e (!)
+         B <op> e e  (add sub mul div mod and or xor lsh rsh)  |  R <cmp> e e (eq ne lt le gt ge)
+         A e e (&&)  |  O e e (||)  |  Q c e e (?:)
+    bf <signed 0/1> <u> <v> <off> <w>   -> `<word after store> <value read back (two's complement, unsigned decimal)>`
+    bfseq <S> <nunits> <signed 0/1> (<unit> <v> <off> <w>)*   -> the storage units (zero-initialised) after the stores
+    fold <op> <type> <a> <b>      -> c2mir folding model: `<result image>` | `NONE`   (a, b: unsigned 64-bit images)
+    conv <type> <x>               -> `<castValue> <cConv>` -/
+open MirVerif MirVerif.CArith
+
+def tyOf : String → Option IType
+  | "bool" => some .bool | "char" => some .char | "schar" => some .schar | "uchar" => some .uchar
+  | "short" => some .short | "ushort" => some .ushort | "int" => some .int | "uint" => some .uint
+  | "long" => some .long | "ulong" => some .ulong | "llong" => some .llong | "ullong" => some .ullong
+  | "enumI" => some .enumI | "enumU" => some .enumU | "enumL" => some .enumL | "enumUL" => some .enumUL
+  | _ => none
+
+def tyName : IType → String
+  | .bool => "bool" | .char => "char" | .schar => "schar" | .uchar => "uchar" | .short => "short"
+  | .ushort => "ushort" | .int => "int" | .uint => "uint" | .long => "long" | .ulong => "ulong"
+  | .llong => "llong" | .ullong => "ullong" | .enumI => "enumI" | .enumU => "enumU"
+  | .enumL => "enumL" | .enumUL => "enumUL"
+
+def binOf : String → Option BinOp
+  | "add" => some .add | "sub" => some .sub | "mul" => some .mul | "div" => some .div | "mod" => some .mod
+  | "and" => some .and | "or" => some .or | "xor" => some .xor | "lsh" => some .lsh | "rsh" => some .rsh
+  | _ => none
+
+def cmpOf : String → Option CmpOp
+  | "eq" => some .eq | "ne" => some .ne | "lt" => some .lt | "le" => some .le | "gt" => some .gt
+  | "ge" => some .ge | _ => none
+
+partial def parse : List String → Option (CExpr × List String)
+  | "L" :: t :: v :: r => do pure (.lit (← tyOf t) (← v.toInt?), r)
+  | "C" :: t :: r => do let (e, r) ← parse r; pure (.cast (← tyOf t) e, r)
+  | "N" :: r => do let (e, r) ← parse r; pure (.neg e, r)
+  | "T" :: r => do let (e, r) ← parse r; pure (.bnot e, r)
+  | "P" :: r => do let (e, r) ← parse r; pure (.plus e, r)
+  | "X" :: r => do let (e, r) ← parse r; pure (.lnot e, r)
+  | "B" :: o :: r => do
+    let (e1, r) ← parse r; let (e2, r) ← parse r; pure (.bin (← binOf o) e1 e2, r)
+  | "R" :: c :: r => do
+    let (e1, r) ← parse r; let (e2, r) ← parse r; pure (.cmp (← cmpOf c) e1 e2, r)
+  | "A" :: r => do let (e1, r) ← parse r; let (e2, r) ← parse r; pure (.land e1 e2, r)
+  | "O" :: r => do let (e1, r) ← parse r; let (e2, r) ← parse r; pure (.lor e1 e2, r)
+  | "Q" :: r => do
+    let (c, r) ← parse r; let (e1, r) ← parse r; let (e2, r) ← parse r; pure (.cond c e1 e2, r)
+  | _ => none
+
+/-- apply a sequence of bit-field stores to an array of zero-initialised storage units -/
+def bfSeq (sg : Bool) : List Nat → List W64 → Option (List W64)
+  | u :: v :: off :: w :: rest, ws =>
+    if h : u < ws.length then
+      bfSeq sg rest (ws.set u (bfInsert sg ws[u] (BitVec.ofNat 64 v) off w))
+    else none
+  | [], ws => some ws
+  | _, _ => none
+
+def step (toks : List String) : String :=
+  match toks with
+  | "cexpr" :: r =>
+    match parse r with
+    | some (e, []) =>
+      match cEval e with
+      | some (t, v) => s!"{tyName t} {v}"
+      | none => "UB"
+    | _ => "ERR"
+  | ["bf", sg, u, v, off, w] =>
+    match u.toNat?, v.toNat?, off.toNat?, w.toNat? with
+    | some u, some v, some off, some w =>
+      let s := sg == "1"
+      let x := bfInsert s (BitVec.ofNat 64 u) (BitVec.ofNat 64 v) off w
+      s!"{x.toNat} {(bfExtract s x off w).toNat} {(addBitField s (BitVec.ofNat 64 u) (BitVec.ofNat 64 v) off w).toNat}"
+    | _, _, _, _ => "ERR"
+  | "bfseq" :: _s :: n :: sg :: rest =>
+    match n.toNat?, rest.mapM String.toNat? with
+    | some n, some xs =>
+      match bfSeq (sg == "1") xs (List.replicate n 0) with
+      | some ws => " ".intercalate (ws.map fun w => toString w.toNat)
+      | none => "ERR"
+    | _, _ => "ERR"
+  | ["fold", o, t, a, b] =>
+    match binOf o, tyOf t, a.toNat?, b.toNat? with
+    | some o, some t, some a, some b =>
+      match foldConst o t (BitVec.ofNat 64 a) (BitVec.ofNat 64 b) with
+      | some r => s!"{r.toNat}"
+      | none => "NONE"
+    | _, _, _, _ => "ERR"
+  | ["conv", t, x] =>
+    match tyOf t, x.toNat? with
+    | some t, some x => s!"{(castValue t (BitVec.ofNat 64 x)).toNat} {(cConv t (BitVec.ofNat 64 x)).toNat}"
+    | _, _ => "ERR"
+  | _ => "ERR"
+
+partial def loop (h : IO.FS.Stream) : IO Unit := do
+  let line ← h.getLine
+  if line.isEmpty then return ()
+  let toks := (line.trimAscii.toString.splitOn " ").filter (· ≠ "")
+  IO.println (step toks)
+  loop h
+
+def main (_args : List String) : IO Unit := do loop (← IO.getStdin)
